@@ -125,6 +125,7 @@ type wworld struct {
 	nontriv bool
 	pubSeen int
 	dirty   bool // an accepted mutated request happened: the quiescence oracle does not apply
+	dbfault bool // a storage command was made to fail: leftovers beyond the end of a log are tolerated by the store oracle
 	faulty  bool // a message fault (duplicated request / dropped response) happened: quiescence is judged under C07
 }
 
@@ -303,6 +304,12 @@ func (w *wworld) checkLog(v dbView) {
 		end := bnum(bget(sseq, "end"))
 		l := byDuid[du]
 		sort.Slice(l, func(i, j int) bool { return l[i].sseq < l[j].sseq })
+		if w.dbfault { // documents beyond the recorded end are leftovers of a failed commit: not part of the log
+			for len(l) > 0 && l[len(l)-1].sseq > end {
+				l = l[:len(l)-1]
+				w.c.Count("leftover-operation-documents-seen")
+			}
+		}
 		if uint64(len(l)) != end {
 			w.c.Violate("C06", "log-end-mismatch", fmt.Sprintf("datatype %s records end of log %d but %d operations are stored", du, end, len(l)), w.desc)
 		}
@@ -359,6 +366,9 @@ func (w *wworld) checkLog(v dbView) {
 		}
 	}
 	for du := range byDuid {
+		if !known[du] && w.dbfault {
+			continue // a create whose second write failed: the operations have no datatype document yet
+		}
 		if !known[du] {
 			w.c.Violate("C06", "orphan-operations", fmt.Sprintf("operations are stored under %s which is not a datatype", du), w.desc)
 		}
@@ -429,6 +439,8 @@ func rpcCode(err error) uint64 {
 		return 0
 	case strings.Contains(s, "Unauthenticated"):
 		return 2
+	case strings.Contains(s, "Unavailable"):
+		return 3
 	}
 	return 99
 }
@@ -443,19 +455,72 @@ func (w *wworld) sync(x *wdt, fault int) {
 	pubsBefore := len(w.e.mq.Published())
 	cmdBefore := w.e.fm.CmdCount()
 	pushed := len(pack.Operations)
+	fg := []string{"FNone", "FDupRequest", "FDropResponse", "FNone", "FNone"}[fault]
+	if fault == 4 {
+		w.e.fm.FailNext(1 + w.c.Rng.Intn(9))
+	}
 	ex := w.call(msg)
 	if ex.timeout {
-		w.c.Violate("C16", "no-answer", fmt.Sprintf("a push-pull for key %q was not answered within 8s", x.key), w.desc)
+		prop := "C16"
+		if fault == 4 {
+			prop = "C08"
+		}
+		w.c.Violate(prop, "no-answer", fmt.Sprintf("a push-pull for key %q was not answered within 8s (fault kind %d)", x.key, fault), w.desc)
 		panic("request not answered")
 	}
+	postFault := false
+	if fault == 4 {
+		time.Sleep(3 * time.Millisecond) // let the post-commit goroutine reach the armed command, if it is one of its
+		failed := w.e.fm.TakeFailed()
+		w.dbfault = true
+		switch {
+		case failed == nil:
+			fault = 0 // the request issued fewer commands than the armed index
+		case failed.Coll == "-_-Collections":
+			fg = "(FDb PFCollection)"
+		case failed.Coll == "-_-Clients":
+			fg = "(FDb PFClient)"
+		case failed.Coll == "-_-Datatypes" && failed.Name == "find":
+			fg = "(FDb (PFPack FailRead))"
+		case failed.Coll == "-_-Operations" && failed.Name == "find" && ex.err == nil && ex.resp.PushPullPacks[0].GetPushPullPackOption().HasErrorBit():
+			fg = "(FDb (PFPack FailPull))"
+		case failed.Coll == "-_-Operations" && failed.Name == "delete":
+			fg = "(FDb (PFPack FailPurge))"
+		case failed.Coll == "-_-Operations" && failed.Name == "insert":
+			fg = "(FDb (PFPack FailInsert))"
+		case failed.Coll == "-_-Datatypes" && failed.Name == "update":
+			fg = "(FDb (PFPack FailUpdate))"
+		default: // a command of the post-response work (snapshot update): the exchange itself was not disturbed
+			fault = 0
+			postFault = true
+		}
+		w.c.Count("ev-db-fault-" + fg)
+	}
 	if ex.err != nil {
-		w.c.Violate("C16", "unexpected-rpc-error", fmt.Sprintf("registered client got an RPC error for a regular sync: %v", ex.err), w.desc)
-		panic("rpc error")
+		if fault != 4 {
+			w.c.Violate("C16", "unexpected-rpc-error", fmt.Sprintf("registered client got an RPC error for a regular sync: %v", ex.err), w.desc)
+			panic("rpc error")
+		}
+		after := w.dbDigest()
+		if after.text != before.text {
+			w.c.Violate("C08", "rpc-error-changed-store", "a request that failed with an RPC error changed the stored data", w.desc)
+		}
+		code := rpcCode(ex.err)
+		w.evs = append(w.evs, fmt.Sprintf("WSyncRpc %s %s %s %s %s", gNat(x.idx), fg, reqG, gN(code), after.gal))
+		w.desc = append(w.desc, fmt.Sprintf("sync dt%d (%s, %s) -> rpc error %d", x.idx, x.key, fg, code))
+		return
 	}
 	resp := ex.resp.PushPullPacks[0]
 	isErr := resp.GetPushPullPackOption().HasErrorBit()
+	if fault == 4 && !isErr {
+		w.c.Violate("C08", "fault-not-reported", fmt.Sprintf("storage command %s failed while serving key %q but the client got a normal response", fg, x.key), w.desc)
+	}
 	if !isErr && pushed > 0 && resp.CheckPoint.Cseq > before0cseq(before, pack.DUID, x.owner.cuid) {
-		w.waitPost(x.owner.col, pubsBefore, cmdBefore)
+		if postFault {
+			time.Sleep(5 * time.Millisecond)
+		} else {
+			w.waitPost(x.owner.col, pubsBefore, cmdBefore)
+		}
 	}
 	if fault == 1 { // the same request is delivered a second time; the client sees only the second response
 		pubs2 := len(w.e.mq.Published())
@@ -476,7 +541,7 @@ func (w *wworld) sync(x *wdt, fault int) {
 	w.checkLog(after)
 	pubG, pubs := w.pubsSince(pubsBefore)
 	// C18: one publish iff at least one operation was stored
-	stored := len(after.ops) - len(before.ops)
+	stored := strings.Count(logPrefix(after), "\nO|") - strings.Count(logPrefix(before), "\nO|") // operations within the recorded logs
 	if !isErr {
 		if stored > 0 && len(pubs) < 1 {
 			w.c.Violate("C18", "missing-publish", fmt.Sprintf("%d operations were stored for key %q but nothing was published", stored, x.key), w.desc)
@@ -485,8 +550,14 @@ func (w *wworld) sync(x *wdt, fault int) {
 			w.c.Violate("C18", "publish-without-push", fmt.Sprintf("a pull-only sync of key %q published %d notifications", x.key, len(pubs)), w.desc)
 		}
 	}
-	if isErr && after.text != before.text {
+	if isErr && after.text != before.text && fault != 4 {
 		w.c.Violate("C16", "refused-request-changed-store", fmt.Sprintf("a sync of key %q was refused but the stored data changed", x.key), w.desc)
+	}
+	if fault == 4 && isErr {
+		// C08: nothing that was acknowledged is lost and no acknowledged position changed
+		if logPrefix(before) != logPrefix(after) {
+			w.c.Violate("C08", "acknowledged-data-changed", fmt.Sprintf("a storage failure (%s) while serving key %q changed datatype documents or operations within the recorded logs", fg, x.key), w.desc)
+		}
 	}
 	// the client applies the response (unless it is lost)
 	ns, ne := x.h.snapshot()
@@ -549,7 +620,6 @@ func (w *wworld) sync(x *wdt, fault int) {
 	v, sz := r.view()
 	aobs := fmt.Sprintf("(mkAobs %s %s %s %s (mkCp %s %s) %s %s)", errG, gBool(s2 > ns), gBool(r.dt.GetState() == model.StateOfDatatype_SUBSCRIBED),
 		gStr(r.dt.GetDUID()), gN(curS), gN(curC), v, sz)
-	fg := []string{"FNone", "FDupRequest", "FDropResponse"}[fault]
 	w.evs = append(w.evs, fmt.Sprintf("WSync %s %s %s %s %s %s %s", gNat(x.idx), fg, reqG, gPpp(resp), after.gal, gList(pubG), aobs))
 	w.desc = append(w.desc, fmt.Sprintf("sync dt%d (%s, fault %s, push %d ops) -> opt %d cp %s pulled %d", x.idx, x.key, fg, pushed, resp.Option, resp.CheckPoint.ToString(), len(resp.Operations)))
 	w.c.Count("ev-sync")
@@ -637,6 +707,29 @@ func waitGoroutines(base int) {
 	for runtime.NumGoroutine() > base && time.Now().Before(deadline) {
 		time.Sleep(20 * time.Microsecond)
 	}
+}
+
+// logPrefix renders the datatype documents and, for each, the operations up to its recorded end
+func logPrefix(v dbView) string {
+	ends := map[string]uint64{}
+	var sb strings.Builder
+	for _, d := range v.dts {
+		sseq, _ := bget(d, "sseq").(bson.D)
+		ends[bget(d, "_id").(string)] = bnum(bget(sseq, "end"))
+	}
+	for _, line := range strings.Split(v.text, "\n") {
+		if strings.HasPrefix(line, "D|") {
+			sb.WriteString(line + "\n")
+		}
+	}
+	for _, o := range v.ops {
+		du := bget(o, "duid").(string)
+		if e, ok := ends[du]; ok && bnum(bget(o, "sseq")) <= e {
+			id, _ := bget(o, "id").(bson.D)
+			fmt.Fprintf(&sb, "O|%v|%v|%v|%v\n", bget(o, "_id"), bget(o, "sseq"), bget(id, "cuid"), bget(id, "seq"))
+		}
+	}
+	return sb.String()
 }
 
 func before0cseq(v dbView, duid, cuid string) uint64 {
@@ -873,6 +966,9 @@ func (w *wworld) quiesce() {
 	if w.faulty {
 		prop = "C07"
 	}
+	if w.dbfault {
+		prop = "C08"
+	}
 	groups := map[string][]*wdt{}
 	for _, x := range w.dts {
 		if x.rep.dt.GetState() == model.StateOfDatatype_SUBSCRIBED {
@@ -972,6 +1068,9 @@ func sliceWire(c *Ctx, kind string) {
 					if faults && c.Rng.Intn(3) == 0 {
 						f = 1 + c.Rng.Intn(3)
 					}
+					if c.DbFaults && c.Rng.Intn(3) == 0 {
+						f = 4
+					}
 					if faults && c.Rng.Intn(8) == 0 {
 						w.burst(x)
 					} else if faults && len(x.held) > 0 && c.Rng.Intn(3) == 0 {
@@ -1014,6 +1113,9 @@ func sliceWire(c *Ctx, kind string) {
 	name := "Wire_" + kind
 	if faults {
 		name = "WireF_" + kind
+	}
+	if c.DbFaults {
+		name = "WireD_" + kind
 	}
 	c.WriteCases(name, "Base Time Ops Counter Map List Datatype Replicas CheckCrdt Server Wire Net CheckWire", "(list (wev "+ty+"))", "check_wire_"+kind, cases, 10)
 }
